@@ -13,7 +13,7 @@ theorem Core.sameData {s s' : State} {r : Id} {up : List Id} {ph : Phase} (h : C
     (hl : Late s') (hdo : DomOnly s s') (hdata : ∀ x, s'.dom.dataOf x = s.dom.dataOf x)
     (hk0 : r ∈ s'.dom.childrenOf 0) (hrtu : RTU r s'.dom) (hrnd : (s'.dom.childrenOf r).Nodup)
     (hkids : ∀ c ∈ s'.dom.childrenOf r, c ∈ s.dom.childrenOf r ∨ KidOkR s'.dom c)
-    (helems : rootElems s'.dom r = rootElems s.dom r) : Core s' r up ph := by
+    (helems : rootElems s'.dom r = rootElems s.dom r) (hadj : AdjD s'.dom s'.openElems) : Core s' r up ph := by
   have hnm : ∀ x, nm s'.dom x = nm s.dom x := fun x => by unfold nm; rw [hdata]
   have hel : ∀ x, s'.dom.isElement x = s.dom.isElement x := fun x => by unfold Dom.isElement; rw [hdata]
   have hr := hdo
@@ -23,7 +23,7 @@ theorem Core.sameData {s s' : State} {r : Id} {up : List Id} {ph : Phase} (h : C
   have e4 : s'.formElem = s.formElem := by rw [hr]
   have e5 : s'.headElem = s.headElem := by rw [hr]
   refine ⟨hl, by rw [e1]; exact h.stack, hk0, by rw [e1]; exact h.nodup, ?_, ?_, ?_, by rw [e3]; exact h.tmm, ?_,
-    hrtu, hrnd, ?_, ?_, ?_, ?_⟩
+    hrtu, hrnd, ?_, ?_, ?_, ?_, hadj⟩
   · rw [e1]; exact h.tg.congr (fun x _ => hnm x)
   · intro x t hx
     rw [e2] at hx
@@ -78,8 +78,9 @@ theorem rootComment_shape {s s1 s2 : State} {r : Id} {up : List Id} {ph : Phase}
   obtain ⟨_, _, hk1, hid, hs1, _⟩ := createComment_spec hc.late.base text
   rw [← hdom1] at hk1 hs1
   have hrs1 : RS r s.dom s1.dom := by rw [hdom1]; exact rs_alloc r hc.late.base _
+  obtain ⟨hadj1, _, htx1, hcO1⟩ := createComment_adj hc.late hc.adj e1
   have hcore1 : Core s1 r up ph := hc.transfer hl1 hext1.chg hrs1 (by rw [hk1]; exact hc.rdoc)
-    (by rw [hdo1]) (by rw [hdo1]) (by rw [hdo1]) (by rw [hdo1]) (by rw [hdo1])
+    (by rw [hdo1]) (by rw [hdo1]) (by rw [hdo1]) (by rw [hdo1]) (by rw [hdo1]) hadj1
   have hfit1 : FitsM s1 up ph := h.fits.transfer (hc.sameNames hext1.chg) (by rw [hdo1]) (by rw [hdo1]) (by rw [hdo1])
   have hnol : ∀ q, c ∉ s1.dom.childrenOf q := fun q hq => by
     rw [hk1] at hq
@@ -96,7 +97,11 @@ theorem rootComment_shape {s s1 s2 : State} {r : Id} {up : List Id} {ph : Phase}
     unfold Dom.isElement at hrel; rw [hcd1] at hrel; cases hrel
   obtain ⟨hkr, hdata, _, _, hrtu⟩ := root_append_node hrc hnol (apply_append hd2)
   have hcn : s1.dom.isElement c = false := by unfold Dom.isElement; rw [hcd1]
-  refine ⟨hcore1.sameData hl2 hdo2 hdata (by rw [hk02]; exact hcore1.rdoc) (hrtu hcore1.rtu) ?_ ?_ ?_,
+  have hadj2 : AdjD s2.dom s2.openElems := by
+    have : s2.openElems = s1.openElems := by rw [hdo2]
+    rw [this]
+    exact hadj1.appendClosed hrc htx1 hcO1 (apply_append hd2)
+  refine ⟨hcore1.sameData hl2 hdo2 hdata (by rw [hk02]; exact hcore1.rdoc) (hrtu hcore1.rtu) ?_ ?_ ?_ hadj2,
     hfit1.sameData hdo2 hdata⟩
   · rw [hkr, List.nodup_append]
     exact ⟨hcore1.rnd, by simp, by intro a ha b hb; simp at hb; subst hb; rintro rfl; exact hnol r ha⟩
@@ -174,8 +179,13 @@ theorem appendCommentToDoc_shape {s s' : State} {r : Id} {up : List Id} {ph : Ph
     show s2 = { s with dom := s2.dom, traceRev := s2.traceRev }
     rw [hdo2, hdo1]
   have hchg : Chg s.dom s2.dom := hext1.chg.trans hchg2
+  obtain ⟨hadj1, _, htx1, hcO1⟩ := createComment_adj hc.late hc.adj e1
+  have hadj2 : AdjD s2.dom s2.openElems := by
+    have : s2.openElems = s1.openElems := by rw [hdo2]
+    rw [this]
+    exact hadj1.appendClosed h0c htx1 hcO1 happ
   refine ⟨⟨hc.transfer hl' hchg (hrs1.trans hrs2) (by rw [hk2, hk1]; exact List.mem_append_left _ hc.rdoc)
-    (by rw [hdo]) (by rw [hdo]) (by rw [hdo]) (by rw [hdo]) (by rw [hdo]),
+    (by rw [hdo]) (by rw [hdo]) (by rw [hdo]) (by rw [hdo]) (by rw [hdo]) hadj2,
     h.fits.transfer (hc.sameNames hchg) (by rw [hdo]) (by rw [hdo]) (by rw [hdo])⟩, rfl, by rw [hdo]⟩
 
 end H5V.Props.C06
